@@ -274,3 +274,44 @@ fn c04_new_takeover_or_wipe() {
     kani::cover!(probe_ok, "C04.cover.takeover");
     kani::cover!(!probe_ok && !wipe_fails, "C04.cover.wipe");
 }
+
+
+// =================================================================================================
+// C16 / C04: the usability probe that decides between takeover and wipe agrees with what a client's
+// open would do -- the REAL is_usable_segment on the POSIX model of verif_read.rs / posix_model.c
+// =================================================================================================
+#[kani::proof]
+#[kani::unwind(26)]
+fn c16_usability_probe_agrees_with_client_open() {
+    use crate::reader::verif_read::{le_u16, le_u32, MODEL_CONTENT, MODEL_MAX};
+    use crate::reader::verif_read::{verif_bad_arg, verif_errno, verif_file, verif_file_len, verif_is_dir, verif_live_mappings,
+                                    verif_missing, verif_mmap_fails, verif_open_fds};
+    let content: [u8; MODEL_CONTENT] = kani::any();
+    let len: usize = kani::any();
+    kani::assume(len <= MODEL_MAX);
+    let missing: bool = kani::any();
+    let is_dir: bool = kani::any();
+    let mmap_fails: bool = kani::any();
+    unsafe {
+        verif_file = content;
+        verif_file_len = len as u64;
+        verif_missing = missing as i32;
+        verif_is_dir = is_dir as i32;
+        verif_mmap_fails = mmap_fails as i32;
+        verif_errno = 2;
+    }
+    let r = ShmWriter::is_usable_segment(Path::new("/p"));
+    let has_header = len >= 16;
+    let magic_ok = has_header && le_u32(&content, 0) == 0x414D5A4E && le_u32(&content, 4) == 0x43420200;
+    let size = if has_header { le_u32(&content, 8) } else { 0 };
+    let ver = if has_header { le_u16(&content, 12) } else { 0 };
+    let gen = if has_header { le_u16(&content, 14) } else { 0 };
+    let client_can_open = !missing && !is_dir && magic_ok && ver != 0 && gen != 0 && size >= 72 && !mmap_fails;
+    kani::assert(r.is_ok() == client_can_open, "C16.probe.usable_iff_a_client_could_open_it");
+    unsafe {
+        kani::assert(verif_open_fds == 0 && verif_live_mappings == 0, "C16.probe.releases_descriptor_and_mapping");
+        kani::assert(verif_bad_arg == 0, "C16.probe.uses_its_own_descriptor_and_mapping");
+    }
+    kani::cover!(client_can_open, "C16.cover.probe_usable");
+    kani::cover!(!missing && !is_dir && magic_ok && ver != 0 && gen != 0 && size >= 16 && size < 72, "C16.cover.probe_header_only");
+}
